@@ -59,6 +59,19 @@ CHECKS = {
         "are replaced by contracts; Sum over a finite map obeys the store axioms; sorted() returns the input in key order w.l.o.g.",
         technique="contract-based deductive verification: AST->VC symbolic execution with loop invariants and ghost Sum, z3",
     ),
+    "C12": dict(
+        text=("State invariant with ghost state proved for one call of the real sm3 update_fn (with the real _moving_averages, "
+              "_sketch_diagonal_statistics, _get_expanded_shape, init_fn), rank 1..4, symbolic dims/entries/hyper-parameters, "
+              "real arithmetic: Inv = (acc_i[x_i] >= nu[x] >= T[x] >= 0 for every coordinate and axis, each accumulator entry "
+              "attained by nu) is established by init and preserved by update, hence min_i acc_i >= exact decayed sum of squares "
+              "after any history; accumulators never decrease for beta2 = 1; rank 1 coincides with diagonal AdaGrad/RMSProp; "
+              "the step (beta1=0) is bounded by the diagonal method's step. Proved pointwise at Skolem coordinates with "
+              "engine-instantiated max/min facts (quantifier-free)."),
+        design="7/C12",
+        note=TB + " jnp.max over axes is axiomatised by bound + witness facts; int8 momentum quantisation is executed in real mode "
+        "(round = floor(x+1/2)) and plays no role in the claim.",
+        technique="contract-based deductive verification: ghost-state invariant over one update call, AST->VC, z3 (QF_NRA+UF)",
+    ),
 }
 
 NA_REASON = "check not built yet (build in progress); the planned contract kernel is described in DESIGN.md section 7"
